@@ -274,7 +274,9 @@ type c17File struct {
 	MaxProofs int64
 }
 
-func (f *c17File) key() string { return string(storagetypes.FilesPrimaryKey(f.Merkle, f.Owner, f.Start)) }
+func (f *c17File) key() string {
+	return string(storagetypes.FilesPrimaryKey(f.Merkle, f.Owner, f.Start))
+}
 
 type c17Data struct {
 	Merkle []byte
